@@ -150,6 +150,9 @@ def scenarios(tier, seed):
         out.append({"kind": "menu", "seed": seed * 1000 + 1200 + i, "names": ns, "ndims": 3 if i % 2 == 0 else 2,
                     "nlevels": 1 + i % 3, "nfiles": 1 + i % 2, "layout": "shuffled", "time": [0.25, -1.5, 0.0, 3e-7, 12.0, 1.0][i % 6],
                     "n0": [16, 16, 8] if i % 2 == 0 else [32, 16]})
+    # a plotfile whose binary files are larger than 2 and 4 GiB (sparse files): byte offsets that do not fit 32 bits
+    out.append({"kind": "menu", "seed": seed * 1000 + 1290, "names": ["density", "temp", "Y(H2)"], "ndims": 3, "nlevels": 2, "nfiles": 1,
+                "layout": "shuffled", "time": 0.5, "n0": [16, 16, 8], "large_offsets": True})
     return out
 
 
